@@ -391,8 +391,8 @@ func genC18(r *RNG, tier string) []Case {
 	{
 		big := set56{}
 		var l []iv
-		for k := int64(0); k < 6000; k++ {
-			l = append(l, iv{10*k + 1, 10*k + 1 + k%7})
+		for k := int64(0); k < 9000; k++ {
+			l = append(l, iv{1000000 + 10*k + 1, 1000000 + 10*k + 1 + k%7})
 		}
 		big[sidPool[0]] = l
 		big[sidPool[1]] = []iv{{1, 5}}
@@ -404,7 +404,7 @@ func genC18(r *RNG, tier string) []Case {
 					return "err"
 				}
 				p := x.(replication.Mysql56GTIDSet)
-				if p.String() != txt || !p.Equal(big.impl()) || !p.ContainsGTID(mkGtid56(sidPool[0], 59991)) {
+				if p.String() != txt || !p.Equal(big.impl()) || !p.ContainsGTID(mkGtid56(sidPool[0], 1089991)) {
 					return fmt.Sprintf("ok-but-differs: %d bytes printed back, want %d", len(p.String()), len(txt))
 				}
 				return "ok"
